@@ -21,10 +21,10 @@ var c20Paths = []string{
 	"/upload/storage/v1/b/scr/o", "/download/storage/v1/b/scr/o/x", "/b/scr/o/x", "/scr/x", "/scr", "/batch/storage/v1",
 	"/storage/v1/b/scr/o/x/compose", "/storage/v1/b/scr/o/x/rewriteTo/b/scr/o/y", "/storage/v1/b/scr/o/x/rewriteTo/b/scr", "/storage/v1/b/scr/o/x/rewriteTo/b/",
 	"/storage/v1/b/scr/o/x/rewriteTo/b/scr/o/", "/storage/v1/b/nobucket/o/x", "/storage/v1/b/nobucket/o", "/storage/v1/b/scr/o/gz.bin", "/storage/v1/b/scr/o/missing",
-	"/storage/v1/b/scr/o/x/compose/compose", "/storage/v1/b/scr/o/%zz", "/storage/v1/b//o/x", "/upload/storage/v1/b/scr/o/x",
+	"/storage/v1/b/scr/o/x/compose/compose", "/storage/v1/b/scr/o/x/rewriteTo/b/scr/o/x", "/storage/v1/b/scr/o/x/copyTo/b/scr/o/x", "/storage/v1/b/scr/o/%zz", "/storage/v1/b//o/x", "/upload/storage/v1/b/scr/o/x",
 }
 var c20Methods = []string{"GET", "POST", "PUT", "PATCH", "DELETE", "HEAD", "OPTIONS"}
-var c20CR = []string{"", "bytes 0-4/5", "bytes 5-0/3", "bytes */*", "bytes */5", "bytes -1-2/3", "bytes 0-99999999999999999999/1", "bits 0-1/2", "bytes 0-4", "bytes 2-3/*", "bytes 0-0/-1", "bytes 9223372036854775807-9223372036854775807/1"}
+var c20CR = []string{"", "bytes 0-4/5", "bytes 5-0/3", "bytes */*", "bytes */5", "bytes -1-2/3", "bytes 0-99999999999999999999/1", "bits 0-1/2", "bytes 0-4", "bytes 2-3/*", "bytes 0-0/-1", "bytes 9223372036854775807-9223372036854775807/1", "bytes 0-3/9223372036854775807", "bytes */9223372036854775807", "bytes 0-4/4", "bytes 3-4/9223372036854775806", "bytes */0"}
 var c20CT = []string{"", "application/json", "multipart/related", "multipart/related; boundary=zz", "multipart/mixed; boundary=bb", "text/plain", "multipart/related; boundary="}
 var c20Bodies = []string{"", "{}", "{", "null", `{"name":"x"}`, `{"name":5}`, `{"sourceObjects":[{"name":"x"}]}`, `{"sourceObjects":[{"name":"x","objectPreconditions":null}],"destination":null}`,
 	`{"sourceObjects":[],"destination":{}}`, `{"sourceObjects":null}`, `{"metadata":{"a":null}}`, `[1,2]`, "--zz\r\nContent-Type: application/json\r\n\r\n{\"name\":\"x\"}\r\n--zz\r\n\r\ndata\r\n--zz--\r\n",
@@ -292,9 +292,9 @@ func c20GCSMix(r *Run, cfg *Stream) {
 	_, id := w.ResumableStart(upSpec{Bucket: "scr", Name: "res.bin", ContentType: "text/plain"})
 	s := r.NewSched()
 	s.Budget = 100000
-	roles := []int{cfg.Intn(5), cfg.Intn(5), cfg.Intn(5)}
+	roles := []int{cfg.Intn(6), cfg.Intn(6), cfg.Intn(6)}
 	if r.Index < 10 {
-		roles = [][]int{{0, 1, 2}, {3, 3, 0}, {4, 1, 0}}[r.Index%3]
+		roles = [][]int{{0, 1, 2}, {3, 3, 0}, {4, 1, 0}, {5, 5, 2}}[r.Index%4]
 	}
 	chk := func(q HReq, resp *HResp) {
 		if msg := wellFormed(resp, q.Method); msg != "" {
@@ -317,6 +317,13 @@ func c20GCSMix(r *Run, cfg *Stream) {
 				case 3: // two chunks of one resumable upload
 					q = HReq{Method: "PUT", Path: upPath("scr"), Query: url.Values{"upload_id": {id}}, Headers: map[string]string{"Content-Range": fmt.Sprintf("bytes %d-%d/*", i*2, i*2+1)}, Body: []byte("ab")}
 					r.Probe("c20.concurrent_chunks")
+				case 5: // copies between two names in opposite directions, and of an object onto itself
+					a, b := fmt.Sprintf("l/%d.txt", (ti+i)%2), fmt.Sprintf("l/%d.txt", (ti+i+1)%2)
+					if i == 2 {
+						b = a
+					}
+					q = HReq{Method: "POST", Path: objPath("scr", a) + "/rewriteTo/b/scr/o/" + escName(b)}
+					r.Probe("c20.opposing_copies")
 				default: // bucket metadata / creation while listing
 					if i%2 == 0 {
 						q = HReq{Method: "POST", Path: "/storage/v1/b", Headers: map[string]string{"Content-Type": "application/json"}, Body: []byte(`{"name":"scr"}`)}
